@@ -157,7 +157,11 @@ def r_step(s):
 
 
 def r_workflow(w):
-    return {"id": w["id"], "name": w["id"], "steps": [r_step(s) for s in w["steps"]]}
+    d = {"id": w["id"], "name": w["id"], "steps": [r_step(s) for s in w["steps"]]}
+    if '"uses": "code"' in json.dumps(w):
+        # the scripts of these models write the environment of the process: declare the key
+        d["env"] = {"tok": "draft"}
+    return d
 
 
 def vars_of(obj, acc):
